@@ -379,6 +379,33 @@ pub fn run(cx: &mut Ctx) {
                 variant(cx, &p, &render_plain(&q), &base_args, base_cmr, "alias replaced by its definition");
             }
         }
+        // ---- builtin aliases replaced by their documented definitions
+        {
+            let mut q = p.prog.clone();
+            let mut n_inlined = 0u64;
+            fn inline_builtin(t: &mut Ty, n_inlined: &mut u64) {
+                match t {
+                    Ty::Alias(n) => {
+                        if let Some(def) = builtin_alias(n) {
+                            *t = def;
+                            *n_inlined += 1;
+                        }
+                    }
+                    Ty::Tuple(v) => v.iter_mut().for_each(|x| inline_builtin(x, n_inlined)),
+                    Ty::Array(x, _) | Ty::List(x, _) | Ty::Option(x) => inline_builtin(x, n_inlined),
+                    Ty::Either(l, r) => {
+                        inline_builtin(l, n_inlined);
+                        inline_builtin(r, n_inlined);
+                    }
+                    _ => {}
+                }
+            }
+            for_each_ty(&mut q, &mut |t| inline_builtin(t, &mut n_inlined));
+            if n_inlined > 0 {
+                cx.report.count("builtin_aliases_inlined", n_inlined);
+                variant(cx, &p, &render_plain(&q), &base_args, base_cmr, "builtin aliases replaced by their definitions");
+            }
+        }
         // ---- expressions wrapped in parentheses
         {
             let mut q = p.prog.clone();
